@@ -80,6 +80,14 @@ fn inputs(ctx: &Ctx) -> Vec<Input> {
         let c: Vec<(String, u64)> = a.iter().skip(5).take(10).map(|(k, _)| (k.clone(), rng.below(1000))).collect();
         out.push(Input { name: "three-input-files", files: vec![a, b, c] });
     }
+    {
+        // empty input files in first, middle and last position
+        let a = uniq(15, &mut rng);
+        let b = uniq(15, &mut rng);
+        let mut c = uniq(5, &mut rng);
+        c.push(a[0].clone());
+        out.push(Input { name: "five-input-files-some-empty", files: vec![vec![], a, vec![], b, c, vec![]] });
+    }
     out.push(Input { name: "one-row", files: vec![vec![("solo".to_string(), 77)]] });
     out.push(Input { name: "empty-input", files: vec![vec![]] });
     {
@@ -315,7 +323,8 @@ fn judge(inp: &Input, cfg: &RunCfg, o: &Outcome, ev: &mut Ev, trees: &mut HashSe
         J::obj(vec![
             ("input", J::s(inp.name)),
             ("rows", J::U(inp.files.iter().map(|f| f.len()).sum::<usize>() as u64)),
-            ("first_rows", J::A(inp.files[0].iter().take(12).map(|(k, v)| J::s(format!("{},{}", k, v))).collect())),
+            ("files", J::A(inp.files.iter().map(|f| J::U(f.len() as u64)).collect())),
+            ("first_rows", J::A(inp.files.iter().flatten().take(12).map(|(k, v)| J::s(format!("{},{}", k, v))).collect())),
             ("mode", J::s(format!("{:?}", cfg.mode))),
             ("batch_size", J::U(cfg.batch as u64)),
             ("fd_limit", J::U(cfg.fd as u64)),
@@ -549,7 +558,7 @@ pub fn run(ctx: &Ctx) -> i32 {
         ev,
         Spec {
             level: "exploration",
-            rule: "one evaluation = one run of the real `fst set|map` binary (unsorted mode) as a subprocess with seeded 0-2 ms delays injected at channel send/receive and around batch construction (hook H4): exit status 0, output opens and verify()s, keys == distinct input keys, every value == sum/max/min over ALL rows of its key, and for inputs without repeated keys the output bytes equal a sorted library build; the H4 batch trace is parsed into the merge tree (which leaf batches met in which union, per generation) and the worker assignment; inputs: 13 shapes (no repeats, repeats far apart, adjacent repeats incl. identical rows, three input files, one row, empty, five keys x 200 rows, all identical rows, sorted, reverse sorted, 3000 (thorough 10^5) rows with 30% repeats) x batch sizes {1,2,3,7,all} x fd-limit {2,3,15} x threads {1,2,5,16} x {set,sum,max,min}: a systematic core (every input x mode x batch size) plus random combinations; one fixed configuration is repeated under 24 (200) delay seeds to count how many distinct merge trees scheduling alone produces; thorough adds ThreadSanitizer-instrumented and valgrind-memcheck runs; non-trivial = every run; distinct_nontrivial counts runs (distinct parameter/seed combinations) plus distinct merge trees",
+            rule: "one evaluation = one run of the real `fst set|map` binary (unsorted mode) as a subprocess with seeded 0-2 ms delays injected at channel send/receive and around batch construction (hook H4): exit status 0, output opens and verify()s, keys == distinct input keys, every value == sum/max/min over ALL rows of its key, and for inputs without repeated keys the output bytes equal a sorted library build; the H4 batch trace is parsed into the merge tree (which leaf batches met in which union, per generation) and the worker assignment; inputs: 14 shapes (no repeats, repeats far apart, adjacent repeats incl. identical rows, three input files, five input files of which three are empty, one row, empty, five keys x 200 rows, all identical rows, sorted, reverse sorted, 3000 (thorough 10^5) rows with 30% repeats) x batch sizes {1,2,3,7,all} x fd-limit {2,3,15} x threads {1,2,5,16} x {set,sum,max,min}: a systematic core (every input x mode x batch size) plus random combinations; one fixed configuration is repeated under 24 (200) delay seeds to count how many distinct merge trees scheduling alone produces; thorough adds ThreadSanitizer-instrumented and valgrind-memcheck runs; non-trivial = every run; distinct_nontrivial counts runs (distinct parameter/seed combinations) plus distinct merge trees",
             assumptions: vec!["keys are [a-z0-9]{1,12} (no CSV quoting, no empty lines), values < 2^32 so sums cannot overflow; fd-limit 1 is excluded as in the statement".into(), "interleavings are sampled, not enumerated: the evidence reports how many distinct groupings were actually observed".into(), "a subprocess hitting the 120 s watchdog is inconclusive, never a violation".into()],
             floors: vec![("runs", 200), ("runs:mode=Set", 20), ("runs:mode=Sum", 20), ("runs:mode=Max", 20), ("runs:mode=Min", 20), ("runs:no-repeat-inputs-compared-bytewise", 20), ("trace:union-batches", 100), ("max:union-generations", 2), ("distinct-merge-trees-observed", 20)],
             exhaustive: Some(false),
